@@ -25,12 +25,3 @@ Theorem C36_refuted_witness :
   /\ forallb (ownb 2) (log (run (fork par 2) [OQuery; OEnd])) = false.
 Proof. exact live_session_witness. Qed.
 Print Assumptions C36_refuted_witness.
-
-(* db.disconnect() in the child after a fork with a pooled connection: Pool.disconnect closes pool.con without comparing pids, i.e.
-   the child closes the connection object the parent created (pid 1 parent, pid 2 child).  Conditional on the source as read now. *)
-Theorem C36_refuted_child_disconnect :
-  if disconnect_checks_pid then True
-  else let par := run (init 1) [OBegin; OQuery; OEnd] in
-       ccon par = None /\ log (run (fork par 2) [ODisconnect]) = [EClose 2 (1, 1)].
-Proof. exact child_disconnect_witness. Qed.
-Print Assumptions C36_refuted_child_disconnect.
